@@ -8,6 +8,9 @@ import (
 	"sync"
 	"testing/synctest"
 	"time"
+
+	"github.com/ory/x/sqlcon"
+	pkgerrors "github.com/pkg/errors"
 )
 
 // Sched is the tier-E/W scheduler: tasks park at the storage seam (L1) holding
@@ -22,6 +25,7 @@ const (
 	FaultTransient            // this call returns an error instead of calling through
 	FaultPersistent           // this and every later call returns an error
 	FaultCtx                  // the request context is cancelled and its error returned
+	FaultConflict             // this call fails with the error the persister reports for a serialization failure (sqlcon.ErrConcurrentUpdate): the retryable kind
 )
 
 func (k FaultKind) String() string {
@@ -32,6 +36,8 @@ func (k FaultKind) String() string {
 		return "persistent"
 	case FaultCtx:
 		return "ctx"
+	case FaultConflict:
+		return "conflict"
 	}
 	return "none"
 }
@@ -272,6 +278,8 @@ func (s *Sched) release(p *parkedCall) {
 			case FaultPersistent:
 				err = ErrInjected
 				s.persistent = true
+			case FaultConflict:
+				err = pkgerrors.WithStack(sqlcon.ErrConcurrentUpdate)
 			case FaultCtx:
 				if p.req < len(s.Cancels) {
 					s.Cancels[p.req]()
